@@ -190,6 +190,33 @@ def rule_schedule(ctx, repo):
             and Q.has("$out = np.append($out, $times + %s)" % eps, fn, e)
     ctx.check(ok, "C06.schedule", "store_switch_times/three-points", "t-eps, t, t+eps enter the schedule",
               "the schedule no longer contains the event time together with t-eps and t+eps", f.W())
+    # the only filter on the schedule is `>= current time`: every (re)assignment of the schedule arrays is one of the
+    # recognised construction steps (collect, append, sort, filter-by-current-time); anything else drops events
+    if e is not None:
+        tn, on = src(e["times"]), "out"
+        mo = Q.first("$out = np.append($out, %s)" % tn, fn)[1]
+        if mo is not None:
+            on = src(mo["out"])
+        allowed = ["%s = np.array($i.get_times()).ravel()" % tn, "%s = np.array([], dtype=float)" % on,
+                   "%s = np.append(%s, $x)" % (on, on), "%s = %s[$idx]" % (on, on), "%s = np.sort(%s)" % (on, on)]
+        bad = []
+        for n in walk_noscope(fn):
+            if isinstance(n, (ast.Assign, ast.AugAssign)):
+                tg = n.targets if isinstance(n, ast.Assign) else [n.target]
+                if any(dotted(t_) in (tn, on) for t_ in tg):
+                    if not any(Q.match(pat, n) for pat in allowed):
+                        bad.append(src(n))
+                    m_ = Q.match("%s = %s[$idx]" % (on, on), n)
+                    if m_ is not None:
+                        idx = src(m_["idx"])
+                        okf = Q.has("%s = np.argsort(%s).astype(int)" % (idx, on), fn) or Q.has("%s = np.argsort(%s)" % (idx, on), fn) or \
+                            Q.has("%s = np.where(%s >= self.dae.t)[0]" % (idx, on), fn)
+                        if not okf:
+                            bad.append("%s (index %s is neither the sort order nor the `>= dae.t` filter)" % (src(n), idx))
+        ctx.check(not bad, "C06.schedule", "store_switch_times/no-extra-filter",
+                  "event times enter the schedule unfiltered except for `>= current time`",
+                  "event times are filtered / rewritten before they enter the schedule: %s -- events scheduled beyond that filter are "
+                  "silently dropped (e.g. after tf is extended and the run resumed)" % "; ".join(bad[:3]), f.W())
     d = fn.args.defaults
     epsv = ast.literal_eval(d[-1]) if d else None
     ctx.check(epsv is not None and 0 < epsv <= 1e-3, "C06.schedule", "store_switch_times/eps", "eps = %s" % epsv,
